@@ -310,7 +310,7 @@ class Optimizer(object):
                             for ind in indices:
                                 gate = last_part[ind][0] @ gate
                             result_4.append([gate,[q_i]])
-                        else: 
+                        elif len(indices) == 1:
                             ind = indices[0]
                             result_4.append([last_part[ind][0],[q_i]])
                         last_part = [element for i, element in enumerate(last_part) if i not in indices] # remove from the last part the used items in this iteration
